@@ -671,3 +671,79 @@ bk_harness! {
         core::mem::forget(r); core::mem::forget(txs); core::mem::forget(st);
     }
 }
+
+
+// ---- C03 / C05: emission of the adjustment rows for FIXED end-of-window
+// holdings (the push of a ~260-byte Tx under a *symbolic* condition is what
+// makes c03_two_buyers_split_in_proportion intractable; with concrete holdings
+// the pushes are unconditional and only the loss is symbolic).
+// History: Buy(default) day -9, Buy(b) day -5, loss sale by default, Sell(b)
+// day +3; (bd, bb, n, z) concrete per harness.
+fn emit_rows(x: i64, y: i64, bd: i64, bb: i64, n: i64, z: i64) {
+    let loss = any_in(1, 2000);
+    let st = sfl_state(bd, Some(bb));
+    let txs = vec![
+        tx(aff(0), date(SALE_DAY - 9), 0, buy(pos(x, 0), gez(1, 0), gez(0, 0), cad(), None)),
+        tx(aff(1), date(SALE_DAY - 5), 1, buy(pos(y, 0), gez(1, 0), gez(0, 0), cad(), None)),
+        tx(aff(0), date(SALE_DAY), 2, sell(pos(n, 0), gez(1, 0), gez(0, 0), cad(), None, None)),
+        tx(aff(1), date(SALE_DAY + 3), 3, sell(pos(z, 0), gez(1, 0), gez(0, 0), cad(), None, None)),
+    ];
+    let hd = bd - n; let hb = bb - z; let held = hd + hb;
+    let num = min3i(n, x + y, held);
+    unsafe { SPEC_SFL = (true, num, n, hd, hb); }
+    let r = get_delta_superficial_loss_info(2, &txs, &st, neg(-loss, 2));
+    match r {
+        Ok(Some((info, adj))) => {
+            vcover!("superficial");
+            let ratio = logged_div(0, dec(num, 0), dec(n, 0));
+            let denied = *info.superficial_loss;
+            assert!(is_eff_cent_of(denied, dec(-loss, 2) * ratio));
+            assert!(!info.potentially_over_applied);
+            // one row per buyer that still holds shares, in id order (b before default)
+            assert!(adj.len() == (hb > 0) as usize + (hd > 0) as usize);
+            let mut k = 1;
+            let mut i = 0;
+            if hb > 0 {
+                assert!(adj[i].affiliate == aff(1));
+                match &adj[i].action_specifics {
+                    TxActionSpecifics::Sfla(s) => {
+                        assert!(*s.shares_affected == dec(1, 0));
+                        assert!(*s.amount_per_share == dec(-1, 0) * denied * logged_div(k, dec(hb, 0), dec(held, 0)));
+                    }
+                    _ => assert!(false, "adjustment is not an SfLA"),
+                }
+                i += 1; k += 2;
+            }
+            if hd > 0 {
+                assert!(adj[i].affiliate == aff(0));
+                assert!(adj[i].settlement_date == date(SALE_DAY));
+                match &adj[i].action_specifics {
+                    TxActionSpecifics::Sfla(s) => {
+                        assert!(*s.shares_affected == dec(1, 0));
+                        assert!(*s.amount_per_share == dec(-1, 0) * denied * logged_div(k, dec(hd, 0), dec(held, 0)));
+                    }
+                    _ => assert!(false, "adjustment is not an SfLA"),
+                }
+            }
+            core::mem::forget(info); core::mem::forget(adj);
+        }
+        Ok(None) => assert!(false, "buyers still hold shares: the loss is superficial"),
+        Err(_) => assert!(false, "rejected"),
+    }
+    core::mem::forget(txs); core::mem::forget(st);
+}
+bk_harness! {
+    #[kani::unwind(6)]
+    #[kani::stub(crate::portfolio::bookkeeping::superficial_loss::get_superficial_loss_ratio, spec_scan)]
+    fn c03_emit_both_hold() { emit_rows(4, 3, 6, 5, 3, 2); }       // hd = 3, hb = 3
+}
+bk_harness! {
+    #[kani::unwind(6)]
+    #[kani::stub(crate::portfolio::bookkeeping::superficial_loss::get_superficial_loss_ratio, spec_scan)]
+    fn c03_emit_first_by_id_sold_out() { emit_rows(4, 3, 6, 5, 3, 5); }   // hd = 3, hb = 0
+}
+bk_harness! {
+    #[kani::unwind(6)]
+    #[kani::stub(crate::portfolio::bookkeeping::superficial_loss::get_superficial_loss_ratio, spec_scan)]
+    fn c03_emit_seller_sold_out() { emit_rows(4, 3, 6, 5, 6, 2); }        // hd = 0, hb = 3
+}
